@@ -87,3 +87,25 @@ __CPROVER_assigns(g_msgs, g_exit_status)
 NL_COUNT_ENSURES
 __CPROVER_ensures(g_msgs == 0)   /* nothing is printed when the configuration is consistent */
 ;
+
+/* ---- can_increase_nl (C20-K5), from the statement of C20: "eat_blanks_after_open_brace and eat_blanks_before_close_brace
+ * leave no blank line next to the brace" -- with the two overrides the option documentation itself states
+ * (src/options.h: nl_inside_namespace "Overrides eat_blanks_after_open_brace and eat_blanks_before_close_brace";
+ *  nl_inside_empty_func "This option overrides eat_blanks_after_open_brace and eat_blanks_before_close_brace").
+ * can_increase_nl(nl) == false makes do_blank_lines() force the newline chunk to exactly one line break. ---- */
+extern struct Chunk *const PREVNC, *const PREVC, *const NEXTC, *const PPSTART;
+extern const unsigned CT_BRACE_OPEN_V, CT_BRACE_CLOSE_V, CT_NAMESPACE_V, CT_FUNC_DEF_V, CT_FUNC_CLASS_DEF_V;
+#define T_(p)   Chunk_m_type(p)
+#define PT_(p)  Chunk_m_parentType(p)
+#define IS_FUNC_PARENT(p) (PT_(p) == CT_FUNC_DEF_V || PT_(p) == CT_FUNC_CLASS_DEF_V)
+#define NS_OVERRIDE_CLOSE   (optv_nl_inside_namespace > 0 && PT_(NEXTC) == CT_NAMESPACE_V)
+#define NS_OVERRIDE_OPEN    (optv_nl_inside_namespace > 0 && PT_(PREVNC) == CT_NAMESPACE_V)
+#define EMPTY_FUNC_OVERRIDE (optv_nl_inside_empty_func > 0 && T_(PREVNC) == CT_BRACE_OPEN_V && T_(NEXTC) == CT_BRACE_CLOSE_V && (IS_FUNC_PARENT(NEXTC) || IS_FUNC_PARENT(PREVNC)))
+_Bool can_increase_nl_contract(struct Chunk *nl)
+__CPROVER_requires(__CPROVER_is_fresh(nl, SIZEOF_Chunk) && !Chunk_m_nullChunk(nl) && !Chunk_m_nullChunk(PREVNC) && !Chunk_m_nullChunk(NEXTC))
+__CPROVER_assigns()
+/* no blank line before '}' */
+__CPROVER_ensures((!optv_nl_squeeze_ifdef && optv_eat_blanks_before_close_brace && T_(NEXTC) == CT_BRACE_CLOSE_V && !NS_OVERRIDE_CLOSE && !EMPTY_FUNC_OVERRIDE) ==> !__CPROVER_return_value)
+/* no blank line after '{' (a '}' that follows directly is governed by the clause above when eat_blanks_before_close_brace is set) */
+__CPROVER_ensures((!optv_nl_squeeze_ifdef && optv_eat_blanks_after_open_brace && T_(PREVNC) == CT_BRACE_OPEN_V && !NS_OVERRIDE_OPEN && !NS_OVERRIDE_CLOSE && !EMPTY_FUNC_OVERRIDE) ==> !__CPROVER_return_value)
+;
